@@ -92,6 +92,22 @@ pub fn run_one(b: u64, kind: &str, labels: &[String], seed: u64) -> Value {
                     "mixed_first_bad" => vec![entry(&victim, &h, t0, false), entry(&other, &h, t0 + 1, true), entry(&k3, &h, t0 + 2, true)],
                     "mixed_last_bad" => vec![entry(&victim, &h, t0, true), entry(&other, &h, t0 + 1, true), entry(&k3, &h, t0 + 2, false)],
                     "mixed_middle_bad" => vec![entry(&victim, &h, t0, true), entry(&other, &h, t0 + 1, false), entry(&k3, &h, t0 + 2, true)],
+                    // more records than an honest node ever sends (10): all good / one bad behind the tenth / the last one bad
+                    "long_authentic" | "long_bad_11" | "long_bad_last" | "long_bad_12_victim" => {
+                        let n = 14usize;
+                        let bad = match lb {
+                            "long_bad_11" => 10,
+                            "long_bad_last" => n - 1,
+                            "long_bad_12_victim" => 11,
+                            _ => usize::MAX,
+                        };
+                        (0..n)
+                            .map(|j| {
+                                let key = if lb == "long_bad_12_victim" && j == bad { victim.clone() } else { crypto::keypair(40 + j as u8) };
+                                entry(&key, &h, t0 + j as u64, j != bad)
+                            })
+                            .collect()
+                    }
                     _ => {
                         // signature by one key, announced under another key
                         let mut sig = crypto::sign(&other, &crypto::announce_signable(&h, t0)).to_vec();
@@ -185,7 +201,7 @@ pub fn run_one(b: u64, kind: &str, labels: &[String], seed: u64) -> Value {
             Item::Peers(_) => {}
         }
     }
-    let n_auth = labels.iter().filter(|l| *l == "authentic").count();
+    let n_auth = labels.iter().filter(|l| *l == "authentic" || *l == "long_authentic").count();
     json!({"e":"lookup","b":b,"kind":kind,"labels":labels,"yielded":yielded,"done":done,"panicked":sim.nodes[c].panicked,
         "authentic_responders":n_auth,"items":call.items.len(),"joiner_items":joined_items})
 }
